@@ -105,7 +105,10 @@ CompoundNext ==
   \/ /\ pc = "unmarshal" /\ prov[1].k # "NONE" /\ Unmarshal("CP", 1, 2, RefDecode("CP", buf[1])) /\ pc' = "done"
 
 \* hist: every call history up to MaxHist calls on one packet and what is decoded from it (C18)
-HistOps == {"marshal1", "size1", "dest1", "string1", "unmarshal12", "datagram13", "marshal2", "dest2", "marshal3"}
+HistOps == {"marshal1", "size1", "dest1", "string1", "unmarshal12", "datagram13", "marshal2", "dest2", "marshal3", "rebuild1"}
+\* the caller overwrites the packet in place (same object, new field values) between calls:
+\* whatever the library returned before must not influence what it returns now
+Rebuilds(v) == { w \in Vals : w.k = v.k /\ w # v }
 HistCall(op) ==
   CASE op = "marshal1" -> Marshal(1, RefMarshal(pk[1]))
     [] op = "size1" -> SizeOf(1, SizeAny(pk[1]))
@@ -116,13 +119,14 @@ HistCall(op) ==
     [] op = "marshal2" -> pk[2].k # "NONE" /\ Marshal(2, RefMarshal(pk[2]))
     [] op = "dest2" -> pk[2].k # "NONE" /\ DestOf(2, DestAny(pk[2]))
     [] op = "marshal3" -> pk[3].k # "NONE" /\ Marshal(3, RefMarshal(pk[3]))
+    [] op = "rebuild1" -> Rebuilds(pk[1]) # {} /\ Build(1, CHOOSE w \in Rebuilds(pk[1]) : TRUE)
 HistNext ==
-  \/ /\ pc = "build" /\ \E v \in Vals : Build(1, v)
-     /\ pc' = "calls" /\ hist' = << >>
-  \/ /\ pc = "calls" /\ Len(hist) < MaxHist
-     /\ \E op \in HistOps : HistCall(op) /\ hist' = Append(hist, op)
+  \/ /\ pc = "build" /\ \E v \in Vals : Build(1, v) /\ hist' = << [start |-> v] >>
      /\ pc' = "calls"
-     /\ Emit([script |-> "prog", v |-> pk[1], ops |-> hist'])
+  \/ /\ pc = "calls" /\ Len(hist) - 1 < MaxHist
+     /\ \E op \in HistOps : HistCall(op) /\ hist' = Append(hist, IF op = "rebuild1" THEN [op |-> op, v |-> pk'[1]] ELSE [op |-> op])
+     /\ pc' = "calls"
+     /\ Emit([script |-> "prog", v |-> hist[1].start, ops |-> SubSeq(hist', 2, Len(hist'))])
 
 McNext == CASE Mode = "hist" -> HistNext [] Mode = "compound" -> CompoundNext [] Mode = "wire" -> WireNext [] Mode = "faults" -> FaultNext [] Mode = "limits" -> LimitsNext
             [] Mode = "variants" -> VariantsNext [] Mode = "foreign" -> ForeignNext
@@ -156,8 +160,8 @@ CnameDefined == (Mode = "compound" /\ pk[1].k = "CP" /\ Valid(pk[1].pkts)) => Le
 \* ---- histories (C18): the packet under test is never modified by any call, a buffer is only
 \* written by Marshal, and repeating a call gives the same result (the guards of Codec.tla
 \* would disable a differing repeat; here the reference results are functions of the value)
-PacketUntouched == [][Mode = "hist" /\ pc = "calls" => pk'[1] = pk[1]]_mvars
-BufferOnlyByMarshal == [][Mode = "hist" /\ pc = "calls" /\ buf'[1] # buf[1] => hist'[Len(hist')] = "marshal1"]_mvars
+PacketUntouched == [][Mode = "hist" /\ pc = "calls" /\ hist'[Len(hist')].op # "rebuild1" => pk'[1] = pk[1]]_mvars
+BufferOnlyByMarshal == [][Mode = "hist" /\ pc = "calls" /\ buf'[1] # buf[1] => hist'[Len(hist')].op = "marshal1"]_mvars
 
 \* ---- limits (C08): every boundary value is decided, and never both ways ----
 LimitsDecided == (Mode = "limits" /\ pk[1].k # "NONE") => (WF(D0, pk[1]) # Over(pk[1]))
